@@ -650,11 +650,11 @@ class Folder:
                 kwargs.update(self.expr(k.value))
             else:
                 kwargs[k.arg] = self.expr(k.value)
+        if fn in self.ctors:
+            return self.ctors[fn](args, kwargs)
         if fn in ("Counter", "collections.Counter"):
             import collections
             return collections.Counter(*args, **kwargs)
-        if fn in self.ctors:
-            return self.ctors[fn](args, kwargs)
         if fn == "isinstance" and len(args) == 2:
             if self.isinstance_hook is not None:
                 r = self.isinstance_hook(args[0], norm(e.args[1]))
@@ -692,6 +692,18 @@ class Folder:
                 return IntArray([y for x in args[0] for y in x.v])
             if all(isinstance(x, list) for x in args[0]):
                 return [y for x in args[0] for y in x]
+        if fn in ("np.empty", "numpy.empty") and len(args) == 1 and isinstance(args[0], int) and not isinstance(args[0], bool) and set(kwargs) <= {"dtype"}:
+            return [None] * args[0]                                      # uninitialised one-dimensional array
+        if fn == "format" and len(args) == 2 and isinstance(args[0], (int, float)) and isinstance(args[1], str) and not kwargs:
+            try:
+                return format(args[0], args[1])
+            except ValueError:
+                raise Raised("ValueError", e)
+        if fn == "int" and len(args) == 2 and isinstance(args[0], str) and isinstance(args[1], int) and not kwargs:
+            try:
+                return int(args[0], args[1])
+            except ValueError:
+                raise Raised("ValueError", e)
         if fn in ("np.prod", "numpy.prod", "math.prod") and len(args) == 1 and isinstance(args[0], (list, tuple)) and not kwargs:
             out = 1
             for x in args[0]:
